@@ -15,4 +15,12 @@ CLAIMED = {
   technique="TLA+ spec (Timers.tla: nondeterministic reference scheduler RefExec + implementation-shaped ImplExec) model-checked by TLC; state-graph edge cover replayed on timer_manager with scripted callbacks; firing sequences validated by TLC",
   text="TLC checks for every reachable scheduler state (2 timers; 3 thorough; callback menu: none/unplan/plan self or other) and every time step that the implementation-shaped exec loop produces a firing sequence the reference accepts (never early, deadline order, nothing due left, catch-up one firing per period) and the same end state; every edge is replayed on igris::timer_manager and each recorded exec (firing order, planned flags, finish times, emptiness, time to next deadline) is judged; stimer check/swift/plan against its due rule.",
   note=NOTE),
+ "C04": dict(
+  technique="TLA+ spec (Gstuff.tla Encode + transcribed receivers) model-checked by TLC over all short payloads; recorded Encode events of every encoder variant/partition validated by TLC",
+  text="TLC checks at specification level that for every payload up to length 3 (4 thorough) over marker/escape/CRC-critical bytes the frame has the stated shape and the receiver automaton returns exactly one packet on the last byte; the real encoders (plain, iovec with every partition, both self-sizing overloads, legacy) run on the same payloads plus random ones up to 300 bytes into exactly sized guarded buffers, and every Encode event (bytes, length, guards, round trip through the real receiver) is judged against Encode(cx,p).",
+  note=NOTE),
+ "C05": dict(
+  technique="TLA+ monitor x receiver-automaton product (GstuffMC.tla) model-checked by TLC for all stream lengths; recorded (byte,status) traces of the real receivers validated by the monitor in TLC",
+  text="The history-free product of the transcribed receiver automata (default, coinciding-marker, legacy) with the property monitor (soundness of every delivery, owed deliveries after garbage, overflow reporting, capacity bound) is explored exhaustively for capacities 2-3 (2-5 thorough): byte streams of every length. The real receivers are driven with all short words over the symbol alphabet, valid traffic with garbage prefixes and single truncation/corruption/insertion faults, and noise; each (byte,status,size,content,guards) event is judged by the monitor and compared status-by-status with the automaton model.",
+  note=NOTE),
 }
